@@ -6,8 +6,14 @@ for d in sorted(glob.glob('/verif/seeded/*/')):
     mp=os.path.join(d,'meta.json')
     if not os.path.exists(mp): continue
     m=json.load(open(mp))
-    checks='; '.join('%s %s'%(k,v.replace('caught','').strip('[]') if v.startswith('caught') else '**missed**') for k,v in m.get('checks_run',{}).items())
-    rows.append('| %s | %s | %s | %s |'%(m['id'], m.get('breaks_property','?'), m.get('needs_to_manifest','').replace('|','\\|'), checks))
+    def fmt(k,v):
+        if v.startswith('caught'): return '%s %s'%(k,v.replace('caught','').strip('[]'))
+        if v.startswith('missed at first'): return '%s (after strengthening)'%k
+        return '%s **missed**'%k
+    checks='; '.join(fmt(k,v) for k,v in m.get('checks_run',{}).items())
+    need=m.get('needs_to_manifest','')
+    if m.get('strengthening'): need+=' — missed at first by %s; strengthening: %s'%(m.get('missed_at_first_by'),m['strengthening'])
+    rows.append('| %s | %s | %s | %s |'%(m['id'], m.get('breaks_property','?'), need.replace('|','\\|'), checks))
 print('| id | breaks | what it needs to manifest (and what was strengthened) | caught by (final run) |')
 print('|---|---|---|---|')
 print('\n'.join(rows))
